@@ -253,7 +253,21 @@ func replaceVarintAt(b []byte, off int, v uint64) []byte {
 
 func mutate(r *rand.Rand, kind string, valid []byte) mutated {
 	b := append([]byte(nil), valid...)
-	switch r.Intn(10) {
+	switch r.Intn(11) {
+	case 10: // a float64 field replaced by a special value (NaN, infinities, huge, denormal, out-of-range angles)
+		if len(b) >= 8 {
+			specials := []float64{math.NaN(), math.Inf(1), math.Inf(-1), 1e308, -1e308, 5e-324, 0, math.Copysign(0, -1), 4, -1, 10, -10, math.Pi, 2 * math.Pi}
+			v := specials[r.Intn(len(specials))]
+			off := r.Intn(len(b) - 7)
+			if hdr := map[string]int{"Cap": 0, "Rect": 1, "Point": 1, "Loop": 5, "Polyline": 5}[kind]; r.Intn(4) != 0 && off >= hdr {
+				off = hdr + (off-hdr)/8*8 // aligned to the float fields of the fixed layouts
+			}
+			if off+8 <= len(b) {
+				binary.LittleEndian.PutUint64(b[off:], math.Float64bits(v))
+				return mutated{b: b, how: fmt.Sprintf("float@%d=%v", off, v)}
+			}
+		}
+		return mutated{b: b, how: "valid"}
 	case 0:
 		return mutated{b: b, how: "valid"}
 	case 1: // truncate
@@ -462,6 +476,14 @@ func decode(kind string, in []byte, r *rand.Rand, primer []byte, differs func(wh
 			_ = v.ContainsPoint(gen.Uniform(r))
 			_ = v.CellUnionBound()
 			_ = v.IntersectsCell(cellProbe)
+			_ = v.ContainsCell(cellProbe)
+			for f := 0; f < 6; f++ {
+				_ = v.IntersectsCell(s2.CellFromCellID(s2.CellIDFromFace(f)))
+				_ = v.ContainsCell(s2.CellFromCellID(s2.CellIDFromFace(f)))
+			}
+			_ = v.Union(s2.CapFromPoint(gen.Uniform(r)))
+			_ = v.Complement()
+			_ = v.IsValid()
 		}
 	case "Rect":
 		var v s2.Rect
@@ -472,6 +494,17 @@ func decode(kind string, in []byte, r *rand.Rand, primer []byte, differs func(wh
 			_ = v.ContainsPoint(gen.Uniform(r))
 			_ = v.CellUnionBound()
 			_ = v.IntersectsCell(cellProbe)
+			_ = v.ContainsCell(cellProbe)
+			for f := 0; f < 6; f++ {
+				fc := s2.CellFromCellID(s2.CellIDFromFace(f))
+				_ = v.IntersectsCell(fc)
+				_ = v.ContainsCell(fc)
+				for _, ch := range s2.CellIDFromFace(f).Children() {
+					_ = v.IntersectsCell(s2.CellFromCellID(ch))
+				}
+			}
+			_ = v.IsValid()
+			_ = v.Area()
 		}
 	case "CellID":
 		var v s2.CellID
@@ -507,11 +540,12 @@ func decode(kind string, in []byte, r *rand.Rand, primer []byte, differs func(wh
 			_ = v.ContainsCellID(cellProbe.ID())
 			_ = v.IntersectsCellID(cellProbe.ID())
 			_ = v.LeafCellsCovered()
-			if v.IsValid() {
-				_ = v.RectBound()
-				_ = v.CapBound()
-				_ = v.ContainsPoint(gen.Uniform(r))
-			}
+			_ = v.RectBound()
+			_ = v.CapBound()
+			_ = v.ContainsPoint(gen.Uniform(r))
+			_ = v.IntersectsCell(cellProbe)
+			_ = v.ContainsCell(cellProbe)
+			_ = v.CellUnionBound()
 			w := append(s2.CellUnion(nil), v...)
 			if len(w) < 100000 {
 				w.Normalize()
